@@ -1,4 +1,5 @@
 import AmrK.HeaderCodec
+import AmrK.NamesMore
 import AmrK.CellHCodec
 import AmrK.WritersSizes
 import AmrK.Obligations.ChkTables
@@ -55,5 +56,24 @@ theorem written_headers_read_back (H : Header.HData) (hg : H.Good) (nf : Nat) (r
     Header.parse (Header.render H) none = .ok (H.meta H.levels.length) ∧
       Taste.parseCellH (Taste.renderCellH nf rows) nf = .ok (rows.map Taste.BoxRow.entry) :=
   ⟨Header.parse_render H hg, Taste.parseCellH_render nf rows hr⟩
+
+/-- **the field list**: velocity, density, species mass fractions, rhoh, temp, RhoRT, then the
+    pressure gradient and the reaction rates when requested — and its names line up with the
+    components of `chk_data`'s record group by group (state under state names, gradient under
+    gradient names, the rate of each species under its `I_R` name) -/
+theorem field_names_align {α : Type} (sp : List String) (doG doR : Bool) (s g r : List α)
+    (hs : s.length = (Names.stateNames sp).length) (hg : g.length = 3) :
+    (Names.chkFields sp doG doR).zip (s ++ (if doG then g else []) ++ (if doR then r else [])) =
+      (Names.stateNames sp).zip s ++ (if doG then Names.gradNames.zip g else []) ++
+        (if doR then (Names.irNames sp).zip r else []) :=
+  Names.chk_names_align sp doG doR s g r hs hg
+
+theorem field_count (sp : List String) (doG doR : Bool) :
+    (Names.chkFields sp doG doR).length = 7 + sp.length + (if doG then 3 else 0) + (if doR then sp.length else 0) :=
+  Names.chkFields_length sp doG doR
+
+example : Names.chkFields ["H2", "O2"] true true =
+    ["x_velocity", "y_velocity", "z_velocity", "density", "Y(H2)", "Y(O2)", "rhoh", "temp", "RhoRT",
+     "gradpx", "gradpy", "gradpz", "I_R(H2)", "I_R(O2)"] := by decide +kernel
 
 end C17
